@@ -272,7 +272,8 @@ FAMILIES = [
            reach=['never', 'same-step'],
            bounds='3 (thorough 4) activities x 1 wait'),
     Family('trio2', fam_waits,
-           thorough=dict(k=3, waits=2, kinds=[DELAY, MOMENT, AFTER, BEFORE]),
+           thorough=dict(k=3, waits=2, kinds=[DELAY, MOMENT, AFTER, BEFORE], _max_paths=900000,
+                         _max_wall=1200),
            bounds='3 activities x 2 waits, 4 kinds'),
     Family('pair2real', fam_waits,
            thorough=dict(k=2, waits=2, kinds=K5, real=True),
